@@ -1,7 +1,7 @@
 #!/bin/bash
 # Full .vo build of the Coq development (never -vos). Usage: build.sh [make args]
 set -e
-cd "$(dirname "$0")/../coq"
+cd "${VERIF_COQ_DIR:-$(dirname "$0")/../coq}"
 mkdir -p cases
 exec 9>.build.lock
 flock 9
